@@ -260,6 +260,10 @@ func fieldSeed(owner types.Type, f *types.Var) (uval, bool) {
 		if isFloat(f.Type()) {
 			return known(dimL, kScalar), true
 		}
+	case "Epsilon":
+		if isFloat(f.Type()) && on == "SolidCollider" {
+			return known(dimL, kScalar), true
+		}
 	case "Delta":
 		if isFloat(f.Type()) && (on == "DualContouring" || on == "dcCubeLayout") {
 			return known(dimL, kScalar), true
@@ -713,6 +717,11 @@ func (e *unitsEngine) callResult(call *ssa.Call, idx int) uval {
 			if a.dimKnown() {
 				return known(a.d, kScalar)
 			}
+			// the length of a ray direction is length per unit of ray
+			// parameter, whatever vector the caller chose as direction
+			if len(args) > 0 && isRayDirection(args[0]) {
+				return known(dimLpT, kScalar)
+			}
 			if a.st == uKnown {
 				return uval{}
 			}
@@ -780,6 +789,10 @@ func (e *unitsEngine) callResult(call *ssa.Call, idx int) uval {
 	if pkg == "math/rand" && (name == "Float64" || name == "Float32" || name == "NormFloat64") {
 		return known(dim1, kScalar)
 	}
+	// ray/box slab test: entry and exit ray parameters
+	if name == "rayCollisionWithBounds" && strings.HasPrefix(pkg, repoMod+"/model") {
+		return known(dimT, kScalar)
+	}
 	// interface vocabulary of the repository (by method name)
 	switch name {
 	case "Min", "Max":
@@ -837,6 +850,21 @@ func (e *unitsEngine) callResult(call *ssa.Call, idx int) uval {
 		}
 	}
 	return uval{}
+}
+
+// isRayDirection: v is a load of Ray.Direction.
+func isRayDirection(v ssa.Value) bool {
+	var f *types.Var
+	var owner types.Type
+	switch x := v.(type) {
+	case *ssa.UnOp:
+		if fa, ok := x.X.(*ssa.FieldAddr); ok && x.Op == token.MUL {
+			f, owner = structField(fa.X.Type(), fa.Field)
+		}
+	case *ssa.Field:
+		f, owner = structField(x.X.Type(), x.Field)
+	}
+	return f != nil && f.Name() == "Direction" && typeNameOf(owner) == "Ray"
 }
 
 // linearPartIdiom: the result of Apply(v) is only used in a subtraction with
